@@ -381,3 +381,92 @@ def gen_c15(seed, shard, n_hist, tier):
         h.add("L")
         out.append(h)
     return out
+
+
+# ---------------------------------------------------------------------------- deep / large histories
+def gen_deep_history(hid, rng, prop, kind, scale=1.0, force=None):
+    """long grow/shrink histories: thousands of leaves at small capacities, or >= 3 levels with
+    wide, unevenly filled branches at large capacities; state dumps only every few hundred
+    operations (dump=K). Phases: grow (ascending / descending), overwrite pass over every key
+    (hits every separator), shrink by a pattern, random churn."""
+    extras = EXTRAS.get(prop, {})
+    if kind == "small":
+        cap = rng.choice([4, 4, 5, 6, 7])
+        n = int(rng.choice([2200, 2600, 3000]) * scale)
+        dump = 250
+    else:
+        cap = rng.choice([63, 64, 80, 100, 128])
+        if force:
+            cap = force.get("cap", cap)
+        # three levels; with descending inserts every leaf but the first is half full, the root has
+        # two branch children and the LEFT one holds between cap/2+32 and cap separators while
+        # its right sibling sits at the minimum: a very uneven pair of adjacent wide branches
+        lo_l, hi_l = cap + 34, cap + cap // 2 + 2
+        leaves = rng.randint(lo_l, max(lo_l, hi_l)) if scale == 1.0 else int((cap + 2) * 1.6 * scale)
+        n = (cap // 2) * leaves
+        dump = 500
+    h = Hist(hid, "rust", cap)
+    h.lines[0] += f" dump={dump}"
+    order = rng.choice(["asc", "desc", "desc"])
+    pattern = rng.choice(["top", "bottom", "third", "all_asc", "all_desc"])
+    if force:
+        order = force.get("order", order)
+        pattern = force.get("pattern", pattern)
+    keys = list(range(n)) if order == "asc" else list(range(n - 1, -1, -1))
+    U = n
+
+    def maybe_extra():
+        if extras and rng.random() < 0.01:
+            kind_ = rng.choice(list(extras.keys()))
+            if kind_ != "clear":
+                emit_extra(h, rng, U, kind_)
+    for k in keys:
+        h.add(f"I {k} {h.sid} {h.sid * 10}")
+        h.sid += 1
+        maybe_extra()
+    # overwrite pass: every key once more (equal keys must route to the entry that holds them)
+    for k in range(0, n, 1 if kind == "small" else 1):
+        h.add(f"I {k} {h.sid} {h.sid * 10}")
+        h.sid += 1
+    if pattern == "top":
+        dels = list(range(n - 1, max(n - 1 - n // 3, 0), -1))
+    elif pattern == "bottom":
+        dels = list(range(0, n // 3))
+    elif pattern == "third":
+        dels = list(range(0, n, 3)) + list(range(1, n, 3))
+    elif pattern == "all_asc":
+        dels = list(range(n))
+    else:
+        dels = list(range(n - 1, -1, -1))
+    for k in dels:
+        h.add(f"R {k}")
+        maybe_extra()
+    for _ in range(int(400 * scale)):
+        z = rng.randrange(U)
+        if rng.random() < 0.6:
+            h.add(f"I {z} {h.sid} {h.sid * 10}")
+            h.sid += 1
+        else:
+            h.add(f"R {z}")
+        maybe_extra()
+    if "validate" in extras or prop in ("C04", "C10"):
+        h.add("V")
+    h.add("SL" if n <= 3000 else "L")
+    return h
+
+
+def gen_deep(prop, seed, tier):
+    rng = random.Random(f"deep-{prop}-{seed}")
+    caps = [64, 128, 80, 100, 63]
+    if tier == "quick":
+        return [gen_deep_history("deep.s", rng, prop, "small"),
+                gen_deep_history("deep.l", rng, prop, "large",
+                                 force=dict(cap=caps[seed % len(caps)], order="desc", pattern="top")),
+                gen_deep_history("deep.m", rng, prop, "large", scale=0.6)]
+    out = []
+    for i in range(5):
+        out.append(gen_deep_history(f"deep.s{i}", rng, prop, "small"))
+        out.append(gen_deep_history(f"deep.l{i}", rng, prop, "large",
+                                    force=dict(cap=caps[i], order="desc", pattern="top")))
+        out.append(gen_deep_history(f"deep.m{i}", rng, prop, "large"))
+    return out
